@@ -1,123 +1,31 @@
-"""C10 — parameter optimisation reaches the maximum-likelihood point on well-posed (linear, Gaussian) fits."""
-import itertools, random
-from vlib.common import harness_many, CheckerError
+"""C10 — parameter optimisation reaches the maximum-likelihood point on well-posed fits."""
+from vlib import deductive as D
+from contracts import c_test_all
+from checks import _wrap
 
 META = {
-    "level": "exploration",
-    "text": "Bounded stand-in: the real esr.fitting.test_all.optimise_fun (default Niter/Nconv, pmin=0, pmax=3) is run on generated data for "
-            "linear-in-parameter families with 1, 2, 3 and 4 parameters (basis functions 1, x, x**2, 1/x, sqrt(x), exp(-x), log(x)), every sign pattern of the "
-            "true parameters, magnitudes 0.1..50, homo- and heteroscedastic Gaussian noise, several data/optimiser seeds, log_opt False and True. "
-            "Oracle: closed-form weighted least squares (numpy lstsq on the weighted design matrix) and the Gaussian NLL formula (math.fsum). Checked per fit: "
-            "returned nll within max(1e-2, 1e-3*|min|) of the closed-form minimum and not below it; likelihood.negloglike(params[:k], lambdified function built as "
-            "the fit builds it) and an independent evaluation of the formula at the returned parameters both reproduce the returned nll to 1e-6 relative; padding "
-            "zeros. Parameter-free functions must return the directly evaluated NLL and zero parameters; functions that are NaN on the data for all parameters "
-            "must return +inf.",
-    "note": "Exploration only: finitely many data sets and seeds; the optimiser is a randomised multi-start BFGS, so a pass says the tested configurations "
-            "converge, not that every configuration does. Functions whose sympy form contains zoo (complex infinity) cannot be lambdified by the fit and come "
-            "back as NaN; they are outside the statement ('NaN on the data') and are not asserted.",
-    "technique": "bounded stand-in (enumerated families x sign patterns x modes x seeds) on the real code, closed-form WLS oracle",
+    "level": "other",
+    "text": "Deductive (unbounded): test_all.chi2_fcn is verified from its AST for any number of parameters: the likelihood is evaluated exactly at p with p_i = x_i (sign None), "
+            "10**x_i ('+') or -10**x_i ('-'), at x itself when signs is None, its value is returned, and ValueError escapes only for an invalid sign marker. "
+            "Convergence of the multi-start BFGS search is not a decidable contract: that clause (NLL within tolerance of the closed-form weighted-least-squares minimum, parameters "
+            "reproduce it, sign patterns, log-space mode, parameter-free and NaN functions) is decided by the bounded stand-in on the real optimise_fun against closed-form WLS, "
+            "which is sampled and not counted as proved. The back-transformation of the selected result in optimise_fun (mult_arr / flag_three bookkeeping) is covered by that bounded part only.",
+    "note": "A-float; 10**x is an uninterpreted positive function; the likelihood is an uninterpreted function of the parameter vector. Bounded part: tolerances 1e-3 rel / 1e-2 abs on NLL.",
+    "technique": "contract-based deductive verification of the reparametrisation (AST->VC->SMT) + bounded stand-in against closed-form least squares",
 }
 CHECKER = "./bin/check C10"
 
-FAM_QUICK = {
-    1: [["x"], ["1"], ["1/x"], ["x**2"]],
-    2: [["1", "x"], ["x", "1/x"], ["x", "x**2"], ["sqrt(x)", "exp(-x)"]],
-    3: [["1", "x", "x**2"], ["x", "1/x", "1"], ["1", "sqrt(x)", "exp(-x)"]],
-    4: [["1", "x", "x**2", "1/x"]],
-}
-FAM_MORE = {
-    1: [["sqrt(x)"], ["exp(-x)"], ["log(x)"]],
-    2: [["1", "1/x"], ["1", "x**2"], ["log(x)", "x"], ["1", "exp(-x)"]],
-    3: [["x", "x**2", "x**3"], ["1", "log(x)", "x"]],
-    4: [["1", "x", "1/x", "exp(-x)"]],
-}
-PARAMFREE = ["x", "x**2", "1/x", "inv(x)", "x**3", "x + x**2", "sqrt(x)", "exp(x)", "x*x - 1/x"]
-# NaN on x in [0.5, 3] for every real parameter value (inf - inf, or sympy nan); checked again in the harness
-NANFUN = [("a0*(x - x)/(x - x)", 1), ("a0*(inv(0*x) - inv(0*x))", 1),
-          ("a0*exp(exp(x + 10)) - a0*exp(exp(x + 10) + 1)", 1), ("a0*exp(3000*x) - a0*exp(3000*x + 1)", 1),
-          ("a0*x + a1*(exp(exp(x + 10)) - exp(exp(x + 10) + 1))", 2),
-          ("a0 + a1*x + a2*(exp(exp(x + 10)) - exp(exp(x + 10) + 1))", 3)]
-
-
-def configs(tier, seed):
-    rng = random.Random(seed * 7919 + 10)
-    fams = {k: list(v) for k, v in FAM_QUICK.items()}
-    reps = 2
-    if tier != "quick":
-        for k, v in FAM_MORE.items():
-            fams[k] += v
-        reps = 10
-    out = []
-    for k, fl in sorted(fams.items()):
-        for names in fl:
-            for sg in itertools.product([1, -1], repeat=k):
-                modes = [False, True] if k <= 2 else [False]
-                for log_opt in modes:
-                    for rep in range(reps if k < 4 else max(1, reps // 2)):
-                        truth = [s_ * 10 ** rng.uniform(-1.0, 1.7) for s_ in sg]
-                        cid = "%s:%s:log%d:r%d" % (",".join(names), "".join("+" if s_ > 0 else "-" for s_ in sg), int(log_opt), rep)
-                        out.append({"id": cid, "kind": "fit", "basis": names, "truth": truth, "sigma": rng.choice([0.05, 0.1, 0.2, 0.3]),
-                                    "hetero": rng.random() < 0.5, "n": rng.choice([20, 30, 40]), "dseed": rng.randrange(2 ** 31),
-                                    "log_opt": log_opt, "max_param": 4 if rng.random() < 0.7 or k > 3 else max(k, rng.choice([3, 5]))})
-            if k == 3:      # log_opt=True must be harmless for >= 3 parameters (linear mode is used)
-                sg = rng.choice(list(itertools.product([1, -1], repeat=3)))
-                truth = [s_ * 10 ** rng.uniform(-1.0, 1.7) for s_ in sg]
-                out.append({"id": "%s:%s:log1:r0" % (",".join(names), "".join("+" if s_ > 0 else "-" for s_ in sg)), "kind": "fit", "basis": names,
-                            "truth": truth, "sigma": 0.2, "hetero": False, "n": 30, "dseed": rng.randrange(2 ** 31), "log_opt": True, "max_param": 4})
-    for f in PARAMFREE:
-        out.append({"id": "paramfree:" + f, "kind": "paramfree", "fstr": f, "n": 25, "dseed": rng.randrange(2 ** 31), "hetero": True, "sigma": 0.2})
-    for f, k in NANFUN:
-        for log_opt in ([False, True] if k <= 2 else [False]):
-            out.append({"id": "nan:%s:log%d" % (f, int(log_opt)), "kind": "nan", "fstr": f, "nparam": k, "n": 25, "dseed": rng.randrange(2 ** 31),
-                        "log_opt": log_opt, "sigma": 0.2})
-    return out
-
 
 def check(run):
-    cfgs = configs(run.tier, run.seed)
-    def cost(c):        # measured: log-space fits of two parameters with mixed signs take ~20 s, same signs ~3 s, the rest < 1 s
-        if c["kind"] == "fit" and c["log_opt"] and len(c["basis"]) == 2:
-            return 20.0 if c["truth"][0] * c["truth"][1] < 0 else 4.0
-        return 0.5
-    order = list(range(len(cfgs)))
-    random.Random(run.seed).shuffle(order)
-    order.sort(key=lambda i: -cost(cfgs[i]))
-    nchunk = 16 if run.tier == "quick" else 96
-    chunks = [[cfgs[i] for i in order[c::nchunk]] for c in range(nchunk)]
-    chunks = [c for c in chunks if c]
-    calls = [("rt_c10.py", {"seed": run.seed, "configs": c, "limit_s": 300}, {"timeout": 900 if run.tier == "quick" else 2400}) for c in chunks]
-    res = harness_many(run, calls, workers=16)
-    cases = sum(r["cases"] for r in res)
-    if cases != len(cfgs):
-        raise CheckerError("C10: %d configurations sent, %d reported" % (len(cfgs), cases))
-    distinct = set()
-    fails = []
-    worst = {"gap": 0.0, "id": None}
-    for r in res:
-        distinct.update(r["distinct_keys"])
-        fails += r["failures"]
-        if r["worst"]["gap"] > worst["gap"]:
-            worst = r["worst"]
-    nfit = sum(1 for c in cfgs if c["kind"] == "fit")
-    run.add_bounded("optimise_fun vs closed-form WLS minimum (real code, Gaussian likelihood)", "esr/fitting/test_all.py::optimise_fun",
-                    "%d fits (families with 1-4 parameters x all sign patterns x log_opt x seeds), %d parameter-free, %d NaN-valued functions" % (
-                        nfit, len(PARAMFREE), sum(1 for c in cfgs if c["kind"] == "nan")),
-                    cases, len(distinct), len(fails),
-                    note="largest |nll - closed-form minimum| over passing fits: %.3g (%s)" % (worst["gap"], worst["id"]))
-    slowest = sorted((tuple(x) for r in res for x in r.get("slowest", [])), reverse=True)[:5]
-    run.sample({"largest_gap_to_closed_form": worst, "n_fits": nfit, "slowest_calls_s": slowest,
-                "harness_wall_s": sorted(round(r.get("_wall_s", 0), 1) for r in res)[-5:], "total_fit_cpu_s": round(sum(r.get("fit_s", 0) for r in res), 1)})
-    seen = set()
-    for f in fails:
-        if f["key"] in seen or len(seen) >= 6 or "cfg" not in f:
-            continue
-        seen.add(f["key"])
-        run.violation(f["key"], f["error"] + " [config %s]" % f["id"],
-                      {"harness": "rt_c10.py", "payload": {"seed": run.seed, "configs": [f["cfg"]], "limit_s": 300}})
-    if fails and not seen:
-        f = fails[0]
-        run.violation(f["key"], f["error"], {"harness": "rt_c10.py", "payload": {"seed": run.seed, "configs": [c for c in cfgs if c["id"] == f["id"]]}})
-    run.assume("the closed-form oracle (numpy lstsq, math.fsum) is correct", "data are well conditioned: x in [0.5, 3], 20-40 points, sigma 0.05-0.3")
-    return run.finish("exploration", META["text"], CHECKER,
-                      rule="cases = configurations executed (one optimise_fun call each); distinct = different (function string, sign pattern of the "
-                           "closed-form optimum, log_opt) triples plus the special functions")
+    failed_all = []
+    for sn in (True, False):
+        st, failed, eng = D.verify_function(run, "fitting/test_all.py", "chi2_fcn", (lambda sn=sn: c_test_all.chi2_fcn_contract(sn)), timeout_ms=8000,
+                                            note="verified for signs=None and for a list of sign markers of any length")
+        failed_all += failed
+    if D.canary(run, "fitting/test_all.py", "chi2_fcn", (lambda: c_test_all.chi2_fcn_contract(False))) is False:
+        raise RuntimeError("canary verified: engine vacuous on chi2_fcn")
+    found, B = _wrap.run_bounded(run, "checks.C10_bounded")
+    _wrap.report_unproved(run, failed_all, found, "test_all.chi2_fcn")
+    run.assume("A-float", "10**x uninterpreted", "convergence of BFGS multi-start is bounded/sampled only")
+    run.trust("pyvc", "z3 5.1.0", "closed-form weighted least squares oracle (/verif/harness/fitlib.py)")
+    return run.finish("other", META["text"], CHECKER)
